@@ -1,4 +1,5 @@
 import Indi.Properties.C09
+import Indi.Properties.Dec.Switch
 #print axioms Indi.Switch.assignAt_le_one
 #print axioms Indi.Switch.assignAt_eq_one
 #print axioms Indi.Switch.assignAt_oneOfMany_establishes
@@ -8,3 +9,9 @@ import Indi.Properties.C09
 #print axioms Indi.Switch.C09_exactly_one
 #print axioms Indi.Switch.C09_any_of_many
 #print axioms Indi.Switch.C09_on_stays_on
+#print axioms Indi.Decisions.switchTurnsOn_agrees
+#print axioms Indi.Decisions.switchClearsOthers_agrees
+#print axioms Indi.Decisions.switchKeepsLast_agrees
+#print axioms Indi.Decisions.switchIsOtherOn_agrees
+#print axioms Indi.Decisions.switchNoOtherOn_agrees
+#print axioms Indi.Decisions.switch_assign_from_source
